@@ -40,6 +40,15 @@ def nonoverlap_layout(draw, max_n=8, alphabet=("a", "b"), distinct_starts=False,
         out.append(ev)
         prev_start = s
         t = s + ln
+    if not distinct_starts and out and draw(st.integers(0, 3)) == 0:
+        # zero-length events sitting exactly on the start (or end) edge of another event, listed AFTER it: touching, not overlapping
+        for _ in range(draw(st.integers(1, 2))):
+            host = draw(st.sampled_from(out))
+            at = host["s"] + (host["d"] if draw(st.booleans()) else 0)
+            z = {"s": at, "d": 0, "l": draw(labels(alphabet))}
+            if with_ids:
+                z["id"] = len(out) + 1
+            out.insert(out.index(host) + 1, z)
     return out
 
 
@@ -199,7 +208,7 @@ def positive_overlap(a, b):
 # exhaustive small scopes
 
 
-def all_layouts(grid, max_n, distinct_starts=False, min_start=0):
+def all_layouts(grid, max_n, distinct_starts=False, min_start=0, zero_on_start=False):
     """Every time-sorted, internally non-overlapping list of at most max_n closed intervals with integer
     edges in [0, grid] (touching and zero-length allowed), as lists of (start, end)."""
     out = [[]]
@@ -216,6 +225,14 @@ def all_layouts(grid, max_n, distinct_starts=False, min_start=0):
                 rec(cur, e, s)
 
     rec([], min_start, None)
+    if zero_on_start:
+        extra = []
+        for lay in out:
+            if len(lay) < max_n:
+                for i, (s0, e0) in enumerate(lay):
+                    if e0 > s0:
+                        extra.append(lay[: i + 1] + [(s0, s0)] + lay[i + 1 :])
+        out = out + extra
     return out
 
 
